@@ -16,6 +16,8 @@
                                           drops what lies at or after `end`) loses an event: the witness is the stream
                                           edges(3, .., detect='rising') emits for ([0]*5+[1]*5)*6 in one chunk of 60 and
                                           in chunks of 8, 10, 42 samples.
+   * [event_rate_unrepaired_in_span]      on streams whose chunks hold only events inside their spans the code before the
+                                          repair and the repaired code do the same, chunk by chunk.
    The existing in-span theorems are the special case [ev_stream_any_causal].  Stdlib only, no axioms. *)
 From Coq Require Import ZArith List Bool Lia ZifyBool Permutation.
 From PV Require Import Stages.Model Stages.Spec Stages.Lemmas Stages.ProofsA Stages.ProofsB Stages.ProofsC
@@ -266,4 +268,81 @@ Proof.
   rewrite Ef. fold (trim_left e (e_lo e + stp)). rewrite IH; [reflexivity|].
   cbn [trim_left evs e_hi]. apply Forall_forall. intros v Hv. apply filter_In in Hv. destruct Hv as [Hv _].
   rewrite Forall_forall in Hbd. exact (Hbd v Hv).
+Qed.
+
+(* ------------------------------------------------------------------ in-span streams: nothing changed *)
+(* every chunk spans >= 0 samples and holds only events before its end *)
+Definition in_span (c : events) : Prop := e_lo c <= e_hi c /\ Forall (fun v => v < e_hi c) (evs c).
+Definition st_bounded (s : option er_st) : Prop :=
+  match s with None => True | Some st => Forall (fun v => v < e_hi (er_ev st)) (evs (er_ev st)) end.
+
+Lemma trim_left_bound e s : Forall (fun v => v < e_hi e) (evs e) ->
+  Forall (fun v => v < e_hi (trim_left e s)) (evs (trim_left e s)).
+Proof.
+  intros Hbd. cbn [trim_left evs e_hi]. apply Forall_forall. intros v Hv. apply filter_In in Hv.
+  destruct Hv as [Hv _]. rewrite Forall_forall in Hbd. exact (Hbd v Hv).
+Qed.
+
+Lemma er_loop_bound bsz stp : forall (fuel : nat) (e : events) cs e',
+  Forall (fun v => v < e_hi e) (evs e) -> er_loop fuel bsz stp e = Some (cs, e') ->
+  Forall (fun v => v < e_hi e') (evs e').
+Proof.
+  induction fuel as [|fuel IH]; intros e cs e' Hbd H.
+  - cbn [er_loop] in H. destruct (e_hi e - e_lo e >? bsz); [discriminate|]. injection H as _ <-. exact Hbd.
+  - cbn [er_loop] in H. destruct (e_hi e - e_lo e >? bsz); [|injection H as _ <-; exact Hbd].
+    destruct (get_range e (e_lo e) (e_lo e + bsz)) as [b|]; [|discriminate].
+    destruct (er_loop fuel bsz stp (trim_left e (e_lo e + stp))) as [[cs1 e1]|] eqn:E1; [|discriminate].
+    injection H as _ <-. exact (IH _ _ _ (trim_left_bound e _ Hbd) E1).
+Qed.
+
+Lemma er_step_unrepaired_in_span rep bsz stp s c : 0 <= stp -> st_bounded s -> in_span c ->
+  er_step_unrepaired rep bsz stp s c = er_step rep bsz stp s c /\
+  (forall s' o, er_step rep bsz stp s c = Some (s', o) -> st_bounded s').
+Proof.
+  intros Hs Hst [Hc1 Hc2]. unfold er_step_unrepaired, er_step.
+  set (pre := match s with
+              | None => Some (c, 2 * e_lo c + bsz, rep)
+              | Some st => match combine_events (er_ev st) c with
+                           | Some e => Some (e, er_s0x2 st, true)
+                           | None => None
+                           end
+              end).
+  assert (Hpre : match pre with Some (e, _, _) => Forall (fun v => v < e_hi e) (evs e) | None => True end).
+  { unfold pre. destruct s as [st|]; [|exact Hc2]. unfold combine_events.
+    destruct (e_lo c =? e_hi (er_ev st)) eqn:E; [|exact I]. cbn [evs e_hi].
+    apply Forall_app. split; [|exact Hc2]. cbn [st_bounded] in Hst.
+    eapply Forall_impl; [|exact Hst]. cbn beta. intros; lia. }
+  destruct pre as [[[e s0] process]|]; [|split; [reflexivity|discriminate]].
+  destruct process.
+  - rewrite (er_loop_unrepaired_in_span bsz stp Hs _ e Hpre). split; [reflexivity|].
+    intros s' o H. destruct (er_loop (Z.to_nat (e_hi e - e_lo e)) bsz stp e) as [[cs e']|] eqn:E1; [|discriminate].
+    assert (Hb' := er_loop_bound bsz stp _ e cs e' Hpre E1).
+    destruct cs; injection H as <- _; exact Hb'.
+  - split; [reflexivity|]. intros s' o H. injection H as <- _. exact Hpre.
+Qed.
+
+(* on a stream whose chunks hold only events inside their spans, the code before the repair fix-C12-er and the
+   repaired code do exactly the same, chunk by chunk (in particular the in-span theorems above held before it) *)
+Theorem event_rate_unrepaired_in_span rep bsz stp : 0 <= stp -> forall (cs : list events) s,
+  st_bounded s -> Forall in_span cs ->
+  run (er_step_unrepaired rep bsz stp) s cs = run (er_step rep bsz stp) s cs.
+Proof.
+  intros Hs. induction cs as [|c cs IH]; intros s Hst Hcs; [reflexivity|].
+  inversion Hcs as [|c' cs' Hc Hcs']; subst. cbn [run].
+  destruct (er_step_unrepaired_in_span rep bsz stp s c Hs Hst Hc) as [E Hnext]. rewrite E.
+  destruct (er_step rep bsz stp s c) as [[s1 o1]|]; [|reflexivity].
+  rewrite (IH s1 (Hnext s1 o1 eq_refl) Hcs'). reflexivity.
+Qed.
+
+Lemma ev_stream_any_in_span : forall cs lo, ev_stream_any lo cs -> Forall in_span cs.
+Proof.
+  induction cs as [|c cs IH]; intros lo H; [constructor|]. cbn [ev_stream_any] in H.
+  destruct H as (H1 & H2 & H3 & H4). constructor; [|exact (IH _ H4)]. split; [lia|].
+  eapply Forall_impl; [|exact H3]. cbn beta. intros; lia.
+Qed.
+
+Corollary event_rate_unrepaired_in_span_stream rep bsz stp lo (cs : list events) : 0 <= stp -> ev_stream_any lo cs ->
+  run (er_step_unrepaired rep bsz stp) None cs = run (er_step rep bsz stp) None cs.
+Proof.
+  intros Hs H. exact (event_rate_unrepaired_in_span rep bsz stp Hs cs None I (ev_stream_any_in_span cs lo H)).
 Qed.
